@@ -259,7 +259,7 @@ pub fn run(ctx: &mut WorkerCtx, job: &Value) -> JobOutput {
                     let v = serde_json::to_value(&m).expect("model to value");
                     let broken = closure::closure_violations(&v);
                     let warnings = bemodel::check(&m);
-                    let lost: Vec<String> = match baseline_links(&rel) {
+                    let lost: Vec<String> = match if job["no_lost_links"] == true { None } else { baseline_links(&rel) } {
                         Some(base) => {
                             let now = optional_links(&v);
                             now.iter()
